@@ -34,6 +34,12 @@ VARIANTS = {
                 "-fno-sanitize-recover=undefined" % GUARD, ""),
 }
 
+if os.environ.get("VERIF_COV"):
+    # development aid (DESIGN 11.8): gcov-instrumented plain/hook builds, to see which lines of cproc the generators reach
+    for _v in ("plain", "hook"):
+        _cc, _cf, _lf = VARIANTS[_v]
+        VARIANTS[_v] = (_cc, _cf + " --coverage", (_lf + " --coverage").strip())
+
 
 class BuildError(Exception):
     pass
